@@ -27,7 +27,13 @@ Names == ToSet(Traces[tid].consts.names)
 Listing(o) == [n \in {x \in Names : x \in DOMAIN o} |-> o[n]]
 Present(d) == [n \in {x \in DOMAIN d : d[x] # <<-1>>} |-> d[n]]
 
-V(c, d, h, b) == [c |-> c, D |-> d, H |-> h, bops |-> b]
+\* family c39 (no second session): pipelined requests of one session on one path - close, then open again without waiting
+\* for the answer; requests take effect in the order sent.  A deviation there is a write lost (C39), not an authority matter
+Fam == Traces[tid].consts.family
+Name(c) == IF Fam = "c39" THEN (IF c = "conf_final_listing" THEN "C39_pipelined_reopen_lost_write"
+                                 ELSE IF c = "conf_writer_request_failed" THEN "C39_pipelined_request_failed" ELSE c)
+           ELSE c
+V(c, d, h, b) == [c |-> Name(c), D |-> d, H |-> h, bops |-> b]
 
 Verdict(e) ==
   CASE e.ev = "AOpen" ->
